@@ -10,12 +10,13 @@
 
 mod common;
 mod eng_rid;
+mod eng_watch;
 
 use common::*;
 use std::{fs, io::Write, path::PathBuf};
 
 fn engines() -> Vec<Box<dyn Engine>> {
-    vec![Box::new(eng_rid::RidEngine::default())]
+    vec![Box::new(eng_rid::RidEngine::default()), Box::new(eng_watch::WatchEngine::default())]
 }
 
 fn main() {
